@@ -142,8 +142,9 @@ def advLen : Peer → Nat
   | .adv items => items.length + 1
   | _ => 1
 
+/-- the bound of `C01_terminates` (Props/C01.lean): enough steps to reach a final point -/
 def fuelFor (C : List Feature) (script : List Peer) (picks : List FName) : Nat :=
-  64 + 16 * ((script.map advLen).sum + picks.length + 1) * (C.length + 2)
+  (50 + C.length) * (script.map advLen).sum + picks.length + (28 + C.length)
 
 def handle (args : List String) : Option String :=
   match args with
